@@ -77,6 +77,7 @@ structure TokOK (len : Nat) (t : Token) : Prop where
   rparen : tk t.kind = .rparen → t.end = t.pos + 1
   rbrack : tk t.kind = .rbrack → t.end = t.pos + 1
   param : tk t.kind = .param → t.end = t.pos + 1 + t.asString.length
+  end_ : tk t.kind = .end_ → t.end = t.pos + 3
 
 /-- a token list as the lexer produces it -/
 structure Lexed (all : List Token) (len : Nat) : Prop where
@@ -153,6 +154,7 @@ theorem tokOK_of {buf : Bytes} {t : Token} (h1 : t.end ≤ buf.length) (h2 : Tok
   rparen h := by rw [h2.1 _ (tk_sym_eq (s := ")") h (by decide) (by decide))]; rfl
   rbrack h := by rw [h2.1 _ (tk_sym_eq (s := "]") h (by decide) (by decide))]; rfl
   param h := h2.2 (tk_param h)
+  end_ h := by rw [h2.1 _ (tk_sym_eq (s := "END") h (by decide) (by decide))]; rfl
 
 /-- consequences of `TokensOK buf p ts` by index -/
 theorem tokensOK_idx {buf : Bytes} {p : Nat} {ts : List Token} (h : TokensOK buf p ts) :
@@ -225,6 +227,8 @@ theorem lexAll_lexed {buf : Bytes} {ts : List Token} (h : Lex.lexAll buf = .ok t
 /-- number of tokens of a tree -/
 def ntok (x : Expr) : Nat := (yield x).length
 def ntoks (es : Exprs) : Nat := (yields es).length
+def ntokW (ws : Whens) : Nat := (yieldW ws).length
+def ntokO (pre : List Tok') (o : OExpr) : Nat := (yieldO pre o).length
 
 theorem pathToks_length (a : Bytes) (ns : List Bytes) : (pathToks (a :: ns)).length = 1 + 2 * ns.length := by
   induction ns generalizing a with
@@ -237,6 +241,12 @@ theorem placeIds_snd (g : Nat → Nat × Nat) (ns : List Bytes) (k : Nat) : (pla
   induction ns generalizing k with
   | nil => simp [placeIds]
   | cons n ns ih => simp only [placeIds, ih, List.length_cons]; omega
+
+theorem placePath_snd (g : Nat → Nat × Nat) (ns : List Bytes) (k : Nat) :
+    (placePath g ns k).2 = k + (pathToks ns).length := by
+  cases ns with
+  | nil => simp [placePath, pathToks]
+  | cons a ns => simp only [placePath, placeIds_snd, pathToks_length]; omega
 
 mutual
 theorem placeG_snd (g : Nat → Nat × Nat) : (x : Expr) → (i : Nat) → (placeG g x i).2 = i + ntok x
@@ -276,11 +286,42 @@ theorem placeG_snd (g : Nat → Nat × Nat) : (x : Expr) → (i : Nat) → (plac
   | .index e (some (_, _)) ix, i => by
     simp only [placeG, ntok, yield, placeG_snd g e, placeG_snd g ix, List.length_cons, List.length_append, List.length_nil]
     omega
+  | .caseE o c t ws el, i => by
+    simp only [placeG, ntok, yield, placeO_snd g false o, placeG_snd g c, placeG_snd g t, placeW_snd g ws,
+      placeO_snd g true el, List.length_cons, List.length_append, List.length_nil, ntokW, ntokO, nb]
+    simp only [Bool.false_eq_true, if_false, if_true, List.length_nil, List.length_cons]
+    omega
+  | .ifE c t e, i => by
+    simp only [placeG, ntok, yield, placeG_snd g c, placeG_snd g t, placeG_snd g e, List.length_cons, List.length_append,
+      List.length_nil]
+    omega
+  | .cast e ns, i => by
+    simp only [placeG, ntok, yield, placeG_snd g e, placePath_snd, List.length_cons, List.length_append,
+      List.length_nil]
+    omega
+  | .array .nil, i => by simp [placeG, ntok, yield]
+  | .array (.cons e es), i => by
+    simp only [placeG, ntok, yield, placeG_snd g e, placesG_snd g es, List.length_cons, List.length_append,
+      List.length_nil, ntoks]
+    omega
 theorem placesG_snd (g : Nat → Nat × Nat) : (es : Exprs) → (i : Nat) → (placesG g es i).2 = i + ntoks es
   | .nil, i => by simp [placesG, ntoks, yields]
   | .cons e es, i => by
     simp only [placesG, ntoks, yields, placeG_snd g e, placesG_snd g es, List.length_cons, List.length_append, ntok]
     omega
+theorem placeW_snd (g : Nat → Nat × Nat) : (ws : Whens) → (i : Nat) → (placeW g ws i).2 = i + ntokW ws
+  | .nil, i => by simp [placeW, ntokW, yieldW]
+  | .cons c t ws, i => by
+    simp only [placeW, ntokW, yieldW, placeG_snd g c, placeG_snd g t, placeW_snd g ws, List.length_cons,
+      List.length_append, ntok]
+    omega
+/-- `kw = true`: one keyword token (ELSE) in front of the expression -/
+theorem placeO_snd (g : Nat → Nat × Nat) (kw : Bool) : (o : OExpr) → (i : Nat) →
+    (placeO g kw o i).2 = i + ntokO (if kw then [T .else_] else []) o
+  | .none, i => by simp [placeO, ntokO, yieldO]
+  | .some e, i => by
+    cases kw <;> simp only [placeO, ntokO, yieldO, placeG_snd g e, List.length_cons, List.length_append, ntok, nb,
+      Bool.false_eq_true, if_false, if_true, List.length_nil] <;> omega
 end
 
 /-! ## no `<eof>` inside a yield -/
@@ -332,9 +373,22 @@ theorem yield_NE : (x : Expr) → NE (yield x)
   | .sel e _ => by simp [yield, NE_append, NE_cons, T, yield_NE e]
   | .index e none ix => by simp [yield, NE_append, NE_cons, T, yield_NE e, yield_NE ix]
   | .index e (some (_, _)) ix => by simp [yield, NE_append, NE_cons, T, yield_NE e, yield_NE ix]
+  | .caseE o c t ws el => by
+    have h2 : NE (yieldO [{ k := TK.else_ }] el) := yieldO_NE [T .else_] el (by simp [NE_cons, T])
+    simp [yield, NE_append, NE_cons, T, yieldO_NE [] o, yield_NE c, yield_NE t, yieldW_NE ws, h2]
+  | .ifE c t e => by simp [yield, NE_append, NE_cons, T, yield_NE c, yield_NE t, yield_NE e]
+  | .cast e ns => by simp [yield, NE_append, NE_cons, T, yield_NE e, pathToks_NE ns]
+  | .array .nil => by simp [yield, NE_cons, T]
+  | .array (.cons e es) => by simp [yield, NE_append, NE_cons, T, yield_NE e, yields_NE es]
 theorem yields_NE : (es : Exprs) → NE (yields es)
   | .nil => by simp [yields]
   | .cons e es => by simp [yields, NE_append, NE_cons, T, yield_NE e, yields_NE es]
+theorem yieldW_NE : (ws : Whens) → NE (yieldW ws)
+  | .nil => by simp [yieldW]
+  | .cons c t ws => by simp [yieldW, NE_append, NE_cons, T, yield_NE c, yield_NE t, yieldW_NE ws]
+theorem yieldO_NE (pre : List Tok') : (o : OExpr) → NE pre → NE (yieldO pre o)
+  | .none, _ => by simp [yieldO]
+  | .some e, h => by simp [yieldO, NE_append, h, yield_NE e]
 end
 
 end MF.Expr
